@@ -20,27 +20,6 @@ def pRegRow : P RegRow := do
   let ps ← pMany k pAff
   pure ⟨d, i, r, ps⟩
 
-mutual
-/-- reference stream with skips: sub-trees of the items marked in `sk` are omitted -/
-def regionsSkipT (sk : Nat → Nat) (t : PT Q) (d r : Nat) (path : List (Aff Q)) (k : Nat) :
-    List (Item × List (Aff Q)) × Nat :=
-  match t with
-  | .node i c ks =>
-    if sk k ≠ 0 then ([(⟨d, i, r⟩, path)], k+1)
-    else
-      let res := regionsSkipK sk ks c.aff 0 (d+1) path (k+1)
-      ((⟨d, i, r⟩, path) :: res.1, res.2)
-def regionsSkipK (sk : Nat → Nat) (ks : PKids Q) (a : Aff Q) (l d : Nat) (path : List (Aff Q)) (k : Nat) :
-    List (Item × List (Aff Q)) × Nat :=
-  match ks with
-  | .nil => ([], k)
-  | .cons none rest => regionsSkipK sk rest a (l+1) d path k
-  | .cons (some t) rest =>
-    let x := regionsSkipT sk t d rest.count (path ++ [halfspace a l]) k
-    let y := regionsSkipK sk rest a (l+1) d path x.2
-    (x.1 ++ y.1, y.2)
-end
-
 /-- is the system `A x < b` (all rows strict) solvable? maximise `t` with `A x + t ≤ b`, `t ≤ 1` -/
 def strictlyFeasible (n : Nat) (rows : List (List Q × Q)) : Option (List Q) :=
   let A : Mat Q := rows.map (fun (a, _) => a ++ [1]) ++ [(zeros n) ++ [1]]
